@@ -290,7 +290,9 @@ def write_replay(ctx, kind, body):
 
 
 def write_evidence(ctx, violations):
-    d = os.path.join(VERIF, "evidence")
+    # evidence committed under /verif/evidence must come from runs against /repo itself; runs against a
+    # scratch tree (VERIF_REPO) write theirs under .work/
+    d = os.path.join(VERIF, "evidence") if REPO == "/repo" else os.path.join(VERIF, ".work", "evidence-scratch")
     os.makedirs(d, exist_ok=True)
     cov = {
         "obligations": ctx.audit["obligations"],
